@@ -207,7 +207,9 @@ Eval vm_compute in [%s].
 
 def configs(tier, seed):
     base = dict(n_dim=2, n_live=60, n_batch=20, n_update=20, seed=3 + seed % 1000, n_shell=5, n_eff=300, blob='none', family='gauss')
-    cs = [dict(base), dict(base, family='halfspace', n_dim=3, blob='float', discard_at_end=True), dict(base, family='twomode', blob='two', n_eff=500)]
+    cs = [dict(base), dict(base, family='halfspace', n_dim=3, blob='float', discard_at_end=True), dict(base, family='twomode', blob='two', n_eff=500),
+          dict(base, discard_at_end=True, seed=base['seed'] + 1), dict(base, discard_at_end=True, seed=base['seed'] + 2, family='twomode'),
+          dict(base, discard_at_end=True, seed=base['seed'] + 3, n_live=100, blob='float'), dict(base, discard_at_end=True, seed=base['seed'] + 4, family='funnel', n_dim=3)]
     if tier == 'thorough':
         cs += [dict(base, family='plateau', blob='int'), dict(base, family='funnel', n_dim=3, blob='vec3', n_live=100), dict(base, family='periodic', n_dim=2, n_eff=1000, redraws=400),
                dict(base, n_live=30, n_batch=7, n_update=5, discard_at_end=True, blob='vec1')]
@@ -229,7 +231,7 @@ def main(run: Run, audit):
         if rc != 0:
             return [('coq', out[-500:])]
         res = []
-        for m in re.finditer(r'\((\d+),\s*(\[[^\]]*\]|nil)\)', out.replace('\n', ' ').replace('%nat', '')):
+        for m in re.finditer(r'\(\s*(\d+)\s*,\s*(\[[^\]]*\]|nil)\s*\)', out.replace('\n', ' ').replace('%nat', '')):
             res.append((int(m.group(1)), [int(x) for x in re.findall(r'\d+', m.group(2))]))
         return res
     with ThreadPoolExecutor(8) as ex:
